@@ -125,6 +125,15 @@ class StateNode():
                                 problems
                             )
 
+                if name == "":
+                    # The engine identifies a State by its name and takes an
+                    # event whose State name is empty for the start of a new
+                    # execution, so a State named "" could never be entered.
+                    problems.append(
+                        f'State name "" at {path}.States is empty, ' +
+                        'a State name must have at least one character'
+                    )
+
                 if name in self.all_state_names:
                     problems.append(
                         f'State "{name}", defined at {path}.States, ' +
